@@ -411,6 +411,16 @@ func genC10(r *Rng, tier string, i int) map[string]any {
 		c := defaultCols[r.Intn(len(defaultCols))]
 		chosen[c.file+"/"+c.col] = true
 	}
+	if r.P(1, 3) {
+		// all default-bearing columns of one file together (blank and non-blank cells then stand side by side in one row)
+		file := defaultCols[r.Intn(len(defaultCols))].file
+		for _, c := range defaultCols {
+			if c.file == file {
+				chosen[c.file+"/"+c.col] = true
+			}
+		}
+	}
+	scattered := r.Bool() // the mixture blanks cells independently instead of every other row
 	blank, absent, mixed := f.clone(), f.clone(), f.clone()
 	var blanked []any
 	for key := range chosen {
@@ -439,7 +449,7 @@ func genC10(r *Rng, tier string, i int) map[string]any {
 				}
 			case mixed:
 				for ri, row := range t.rows {
-					if ri%2 == 0 {
+					if (!scattered && ri%2 == 0) || (scattered && r.Bool()) {
 						row[ci] = ""
 					}
 				}
@@ -452,7 +462,7 @@ func genC10(r *Rng, tier string, i int) map[string]any {
 		}
 	}
 	return staticCase(blank.members(r, false, nil), [][]member{absent.members(r, false, nil), mixed.members(r, false, nil)}, r.Bool(),
-		map[string]any{"truth": blank.truth(), "blanked": blanked, "oneSided": oneSided})
+		map[string]any{"truth": blank.truth(), "mixedTruth": mixed.truth(), "blanked": blanked, "oneSided": oneSided})
 }
 
 func genC11(r *Rng, tier string, i int) map[string]any {
@@ -492,7 +502,7 @@ func init() {
 	}
 	props["C10"] = func() Prop {
 		return &staticProp{id: "C10", nQuick: 1500, nThor: 60000, oracle: oracleC10, gen: genC10,
-			rule: "well-formed feeds (as C01) in which 1-4 of the 16 default-bearing optional columns are spelled three ways: present with blank cells, absent, and present with every other cell blank; one-sided arrival/departure rows in half of the cases; both values of the wheelchair-boarding inheritance option; distinct = distinct input JSON; non-trivial = at least one column or one-sided rows"}
+			rule: "well-formed feeds (as C01) in which 1-4 of the 16 default-bearing optional columns are spelled three ways: present with blank cells, absent, and present with every other cell blank or with cells blanked independently (one case in three takes all such columns of one file together); one-sided arrival/departure rows in half of the cases; both values of the wheelchair-boarding inheritance option; distinct = distinct input JSON; non-trivial = at least one column or one-sided rows"}
 	}
 	props["C11"] = func() Prop {
 		return &staticProp{id: "C11", nQuick: 2000, nThor: 80000, oracle: oracleC11, gen: genC11,
